@@ -569,7 +569,11 @@ class Device(device.Device):
                 self.chipset.in_communicate_thru(deselect_command, 0.5)
                 rsp = self.chipset.in_communicate_thru(wupb_command, 0.5)
                 return nfc.clf.RemoteTarget(target.brty, sensb_res=rsp)
-            except (Chipset.Error, IOError) as error:
+            except Chipset.Error as error:
+                self.log.debug(error)
+            except IOError as error:
+                if error.errno != errno.ETIMEDOUT:
+                    raise
                 self.log.debug(error)
 
     def sense_ttf(self, target):
@@ -775,7 +779,12 @@ class Device(device.Device):
                 try:
                     self.chipset.tg_response_to_initiator(rats_res)
                     data = self.chipset.tg_get_initiator_command(1.0)
-                except (Chipset.Error, IOError) as error:
+                except Chipset.Error as error:
+                    self.log.error(error)
+                    return
+                except IOError as error:
+                    if error.errno != errno.ETIMEDOUT:
+                        raise
                     self.log.error(error)
                     return
                 if data and data[0] & 0xF0 == 0xC0:  # S(DESELECT)
